@@ -280,6 +280,40 @@ func suiteC12(s *Suite, rng *Rng, tier string) {
 				run(fmt.Sprintf("moved-to-index-%d", target), p)
 			}
 		}
+		// a range proof whose descriptor cannot be turned into a proof structure (too many commitments, an oversized bit
+		// length, three squares without the factor 4), attached to a proof that was made without range parts: a verifier
+		// that loses the error of the extraction skips it, and the accepted proof then "establishes" whatever its K says
+		{
+			b6, err := cred.CreateDisclosureProofBuilder([]int{}, nil, false)
+			if err != nil {
+				panic(err)
+			}
+			pl6, _ := gabi.ProofBuilderList{b6}.BuildProofList(ctx, nonce, false)
+			h6 := pl6[0].(*gabi.ProofD)
+			for _, variant := range []string{"five-commitments", "ld-too-large", "three-squares-factor-1", "factor-2^63"} {
+				p := cloneProofD(h6)
+				rp := cloneRange(rp0(honest))
+				rp.Sign, rp.A = 1, 1
+				rp.K = new(gbig.Int).Add(m, bi(10))
+				switch variant {
+				case "five-commitments":
+					for len(rp.Cs) < 5 {
+						rp.Cs = append(rp.Cs, bi(4))
+						rp.DResponses = append(rp.DResponses, bi(1))
+						rp.VResponses = append(rp.VResponses, bi(1))
+					}
+				case "ld-too-large":
+					rp.Ld = pk.Params.Lm + 1
+				case "three-squares-factor-1":
+					rp.Cs, rp.DResponses, rp.VResponses = rp.Cs[:3], rp.DResponses[:3], rp.VResponses[:3]
+				case "factor-2^63":
+					rp.A = 1 << 63
+					rp.K = new(gbig.Int).Lsh(new(gbig.Int).Add(m, bi(10)), 63)
+				}
+				p.RangeProofs = map[int][]*rangeproof.Proof{idx: {rp}}
+				run("unextractable-range-proof:"+variant, p)
+			}
+		}
 		// a proof with an index gap: a zero-valued attribute contributes R^0 = 1, so it can be left out of both the
 		// disclosed and the hidden set without changing the reconstruction; a range proof on the hidden attribute
 		// behind the gap must still be checked
